@@ -251,6 +251,16 @@ def mSerdeAs : Mod :=
 (today's generator never emits it; a change that does is reported as a VIOLATION even before rustc runs) -/
 theorem serde_as_option_mismatch_unlisted : judgeWF mSerdeAs = ⟨false, []⟩ := by decide
 
+def mReqWrap : Mod :=
+  { mode := "client-mod".toList, schemas := ["Item".toList],
+    items := [{ file := "types".toList, kind := "struct".toList, name := "OpRequest".toList, vis := "pub".toList, reqStruct := true,
+                fields := [{ name := "body".toList, refs := [{ to := "Item".toList, map := false, vec := false, wrap := true }], opt := true }] },
+              { file := "types".toList, kind := "struct".toList, name := "Item".toList, vis := "pub".toList, de := true }],
+    imports := [], mentions := [] }
+
+/-- KnownRequestWrapperBody: the body `Option<Item>` of a request struct, `Item` being Deserialize-only (client) -/
+theorem cex_digest_request_wrapper : judgeWF mReqWrap = ⟨false, ["KnownRequestWrapperBody"]⟩ := by decide
+
 def mHeader : Mod :=
   { mode := "types".toList, schemas := [],
     items := [{ file := "types".toList, kind := "struct".toList, name := "OpRequestHeader".toList, vis := "pub".toList,
